@@ -36,6 +36,7 @@ FMAX_AXIOMS = [FMAX > 10 ** 300]
 PURE_LIB: dict[str, T] = {
     'numpy.nan_to_num': None,       # None -> result has the type of the first argument
     'numpy.sqrt': None, 'numpy.log': None, 'numpy.exp': None, 'numpy.abs': None,
+    'numpy.sin': None, 'numpy.cos': None,
     'numpy.diag': None, 'numpy.cov': MAT, 'numpy.atleast_2d': MAT, 'numpy.full_like': MAT, 'numpy.argmin': INT,
     'numpy.argmax': INT, 'numpy.array': None, 'numpy.asarray': None, 'numpy.sum': REAL,
     'numpy.isfinite': ANY, 'numpy.all': BOOL, 'numpy.any': BOOL, 'numpy.dot': MAT,
